@@ -85,7 +85,18 @@ func main() {
 	}
 	c.build = filepath.Join(c.root, ".build", c.id)
 	must(os.MkdirAll(c.build, 0o755))
-	work, err := os.MkdirTemp("", "verif-"+c.id+"-")
+	// scratch space: memory-backed when available (the engines are dominated by small file operations)
+	base := os.Getenv("VERIF_TMP")
+	if base == "" {
+		if st, err := os.Stat("/dev/shm"); err == nil && st.IsDir() {
+			if f, err := os.CreateTemp("/dev/shm", "verif-probe-"); err == nil {
+				f.Close()
+				os.Remove(f.Name())
+				base = "/dev/shm"
+			}
+		}
+	}
+	work, err := os.MkdirTemp(base, "verif-"+c.id+"-")
 	must(err)
 	must(os.Chmod(work, 0o711))
 	c.work = work
@@ -300,6 +311,7 @@ type crashRec struct {
 	TimedOut bool   `json:"timed_out"`
 	Exit     int    `json:"exit"`
 	LogTail  string `json:"log_tail"`
+	Resumed  bool   `json:"resumed"` // a range shard that was continued behind the case in flight
 }
 
 func (c *ctx) run() int {
@@ -388,14 +400,17 @@ func (c *ctx) run() int {
 				if r.havePay {
 					cr.Payload = base64.StdEncoding.EncodeToString(r.payload)
 				}
-				crashes = append(crashes, cr)
 				// resume a range shard behind the index in flight
-				if spec.Range && r.idx >= spec.Lo && r.idx+1 < spec.Hi && len(crashes) < 50 {
-					next := spec
-					next.Lo = r.idx + 1
-					next.Name = spec.Name + "+"
-					resume = &next
+				if spec.Range && r.idx >= spec.Lo && r.idx+1 <= spec.Hi && len(crashes) < 50 {
+					cr.Resumed = true
+					if r.idx+1 < spec.Hi {
+						next := spec
+						next.Lo = r.idx + 1
+						next.Name = spec.Name + "+"
+						resume = &next
+					}
 				}
+				crashes = append(crashes, cr)
 			}
 			mu.Unlock()
 			if resume != nil {
@@ -506,8 +521,11 @@ func (c *ctx) merge(plan *ev.Plan, results []shardResult, crashes []crashRec, bi
 	exit := 0
 	var lines []string
 	replayDir := filepath.Join(c.root, "replays", c.id)
-	blocked := 0
+	blocked, unrecovered := 0, 0
 	for _, cr := range crashes {
+		if !cr.Resumed {
+			unrecovered++
+		}
 		if plan.CrashIsViolation {
 			payload, _ := base64.StdEncoding.DecodeString(cr.Payload)
 			cs := map[string]any{"idx": cr.Idx, "payload_b64": cr.Payload, "payload_text": string(payload), "shard": cr.Shard, "timed_out": cr.TimedOut}
@@ -542,7 +560,14 @@ func (c *ctx) merge(plan *ev.Plan, results []shardResult, crashes []crashRec, bi
 	sort.SliceStable(vios, func(i, j int) bool { return vios[i].Size < vios[j].Size })
 	seenSig := map[string]bool{}
 	nvio := 0
+	harnessErr := 0
 	for _, v := range vios {
+		if v.Sig == "harness" {
+			// the harness could not set a case up (I/O error, bad generator): never a finding
+			harnessErr++
+			notes = append(notes, "harness error: "+tail(v.Msg, 300))
+			continue
+		}
 		if _, ok := knownSig[v.Sig]; ok && v.Sig != "" {
 			excluded[v.Sig]++
 			continue
@@ -582,12 +607,14 @@ func (c *ctx) merge(plan *ev.Plan, results []shardResult, crashes []crashRec, bi
 		}
 	}
 
+	if harnessErr > 0 && exit == 0 {
+		exit = 2
+	}
 	incomplete := len(plan.Shards) - completed
-	if exit == 0 && (blocked > 0 || evals == 0) {
-		// shards died for reasons that could not be attributed to the property
-		if evals == 0 || blocked > 20 || !plan.CrashIsViolation && blocked > 0 && completed == 0 {
-			exit = 2
-		}
+	if exit == 0 && (evals == 0 || blocked > 20 || (unrecovered > 0 && blocked > 0)) {
+		// shards died for reasons that could not be attributed to the property and their
+		// share of the plan was not explored
+		exit = 2
 	}
 
 	cov := map[string]any{
